@@ -235,3 +235,4 @@ def check(facts, rep, tier, cfg):
     import whomay
     whomay.check(facts, rep, "C05.S7", "C05")
     whomay.check_new_statics(facts, rep, "C05.S7", "C05")
+    whomay.check_new_trait_methods(facts, rep, "C05.S7", "C05")
